@@ -5,6 +5,7 @@ import (
 	"strconv"
 	"strings"
 	"sync"
+	"sync/atomic"
 	"time"
 
 	"istio.io/istio/pkg/queue"
@@ -17,6 +18,11 @@ import (
 // with real, short certificate lifetimes.
 //
 //	rt <ttlSec> <rNum> <rDen> <stale>
+//	qs <iterations> <spinMicros>
+//
+// qs: stress of the real queue as the node agent configures it (DelayQueueBuffer(0)): start Run, spin,
+// PushDelayed(f, 0), wait up to 2 s; prints the number of tasks that never ran (must be 0: before the
+// fix of pushInternal a task pushed while Run was about to park stayed on the heap).
 //
 // stale=0: request a certificate, wait until its rotation fires, request again.
 // stale=1: request, change the trust bundle (cache cleared, first task becomes stale), request again,
@@ -64,6 +70,18 @@ func (q *fwdQueue) allRan(n int) bool {
 	return true
 }
 
+func (q *fwdQueue) ranCount() int {
+	q.mu.Lock()
+	defer q.mu.Unlock()
+	n := 0
+	for _, t := range q.ran {
+		if !t.IsZero() {
+			n++
+		}
+	}
+	return n
+}
+
 func (q *fwdQueue) early() bool {
 	q.mu.Lock()
 	defer q.mu.Unlock()
@@ -75,6 +93,13 @@ func (q *fwdQueue) early() bool {
 	return false
 }
 
+// every (ratio, ttl) gives a first delay of more than one second (NotAfter is truncated to seconds, so
+// the lifetime is in (ttl-1, ttl]): the sequential prefix of a case is over long before any task is due.
+var timerShapes = []struct {
+	ratio float64
+	ttl   int
+}{{0.25, 3}, {0.5, 3}, {0.75, 5}}
+
 func genTimer(seed uint64, n int, path string) {
 	out := wire.Create(path)
 	defer out.Close()
@@ -82,19 +107,86 @@ func genTimer(seed uint64, n int, path string) {
 	for i := 0; i < n; i++ {
 		r := root.Fork()
 		out.Line("case", strconv.Itoa(i), "timer")
-		rn, rd := ratTokens(wire.Pick(r, []float64{0.5, 0.75, 1}))
-		out.Line("rt", strconv.Itoa(1+r.Intn(2)), rn, rd, wire.B(r.Chance(1, 2)))
+		if i == 0 {
+			iters := 200000
+			if n > 100 {
+				iters = 2000000
+			}
+			out.Line("qs", strconv.Itoa(iters), "30")
+			continue
+		}
+		sh := wire.Pick(r, timerShapes)
+		rn, rd := ratTokens(sh.ratio)
+		out.Line("rt", strconv.Itoa(sh.ttl), rn, rd, wire.B(r.Chance(1, 2)))
 	}
 }
 
-func runTimerCase(t []string) string {
-	if len(t) != 5 {
+// queueStress returns how many of n tasks pushed with delay 0 never ran within 2 s.
+func queueStress(n, spinUs int) int64 {
+	var lost int64
+	var wg sync.WaitGroup
+	sem := make(chan struct{}, 8)
+	for i := 0; i < n; i++ {
+		wg.Add(1)
+		sem <- struct{}{}
+		go func(i int) {
+			defer wg.Done()
+			defer func() { <-sem }()
+			q := queue.NewDelayed(queue.DelayQueueBuffer(0)) // as NewSecretManagerClient does
+			stop := make(chan struct{})
+			defer close(stop)
+			go q.Run(stop)
+			t0 := time.Now()
+			for time.Since(t0) < time.Duration(spinUs+i%7)*time.Microsecond {
+			}
+			done := make(chan struct{})
+			q.PushDelayed(func() error { close(done); return nil }, 0)
+			select {
+			case <-done:
+			case <-time.After(2 * time.Second):
+				atomic.AddInt64(&lost, 1)
+			}
+		}(i)
+	}
+	wg.Wait()
+	return lost
+}
+
+func runQS(t []string) string {
+	if len(t) != 3 {
 		return "bad-op"
+	}
+	n, e1 := strconv.Atoi(t[1])
+	spin, e2 := strconv.Atoi(t[2])
+	if e1 != nil || e2 != nil || n < 0 || n > 100000000 {
+		return "bad-op"
+	}
+	return fmt.Sprintf("lost=%d", queueStress(n, spin))
+}
+
+// runTimerCase plays one scenario. The result is a function of the scenario only, provided the
+// sequential prefix finishes before the first task is due (> 1 s, see timerShapes); if the machine
+// stalled for longer than that the attempt is discarded and repeated.
+func runTimerCase(t []string) string {
+	r := "bad-op"
+	for attempt := 0; attempt < 6; attempt++ {
+		var conclusive bool
+		r, conclusive = timerAttempt(t)
+		if conclusive {
+			break
+		}
+	}
+	return r
+}
+
+func timerAttempt(t []string) (string, bool) {
+	if len(t) != 5 {
+		return "bad-op", true
 	}
 	ttl, err := strconv.Atoi(t[1])
 	ratio, ok := fracToken(t[2], t[3])
 	if err != nil || !ok {
-		return "bad-op"
+		return "bad-op", true
 	}
 	stale := t[4] == "1"
 	s := newSUT(ratio, 0, false)
@@ -108,7 +200,7 @@ func runTimerCase(t []string) string {
 	var evs []string
 	collect := func() { evs = append(evs, strings.ReplaceAll(s.takeEvents(), "-", "")) }
 	wait := func(n int) bool {
-		deadline := time.Now().Add(30 * time.Second)
+		deadline := time.Now().Add(60 * time.Second)
 		for !fq.allRan(n) {
 			if time.Now().After(deadline) {
 				return false
@@ -119,33 +211,36 @@ func runTimerCase(t []string) string {
 	}
 	fail := ""
 	gen := func() {
-		if _, err := s.sc.GenerateSecret(security.WorkloadKeyCertResourceName); err != nil {
+		if _, err := s.sc.GenerateSecret(security.WorkloadKeyCertResourceName); err != nil && fail == "" {
 			fail = "gen-error"
 		}
 		collect()
 	}
 	gen()
+	n := 1
 	if stale {
 		_ = s.sc.UpdateConfigTrustBundle([]byte(strings.Join(bundlePEMs("B"), "")))
 		collect()
 		gen()
-		if !wait(2) {
-			fail = "timeout"
-		}
-	} else if !wait(1) {
+		n = 2
+	}
+	if fq.ranCount() != 0 {
+		return "inconclusive", false // a task ran during the sequential prefix: the machine stalled > 1 s
+	}
+	if !wait(n) && fail == "" {
 		fail = "timeout"
 	}
 	time.Sleep(50 * time.Millisecond) // let a spurious extra callback show up
 	collect()
 	gen()
 	if fail != "" {
-		return fail
+		return fail, true
 	}
 	wl := "-"
 	if w := nacache.VerifCachedWorkload(s.sc); w != nil {
 		wl = idTok(true, certID(w.CertificateChain))
 	}
-	return fmt.Sprintf("ev=%s calls=%d wl=%s early=%s", strings.Join(evs, ""), s.ca.calls(), wl, wire.B(fq.early()))
+	return fmt.Sprintf("ev=%s calls=%d wl=%s early=%s", strings.Join(evs, ""), s.ca.calls(), wl, wire.B(fq.early())), true
 }
 
 func execTimer(in, outp string) {
@@ -156,6 +251,10 @@ func execTimer(in, outp string) {
 	sem := make(chan struct{}, 8)
 	var wg sync.WaitGroup
 	for i, t := range lines {
+		if t[0] == "qs" {
+			res[i] = runQS(t) // alone, before the timer cases start
+			continue
+		}
 		if t[0] != "rt" {
 			res[i] = "ok"
 			if t[0] != "case" {
@@ -188,6 +287,14 @@ func oracleTimer(in, outp string) {
 	out := wire.Create(outp)
 	defer out.Close()
 	for _, t := range wire.ReadLines(in) {
+		if t[0] == "qs" {
+			if r := runQS(t); r != "lost=0" {
+				out.Line("FAIL", "queue-task-stranded", wire.Enc(join(t)), wire.Enc(r))
+			} else {
+				out.Line("OK")
+			}
+			continue
+		}
 		if t[0] != "rt" {
 			continue
 		}
